@@ -112,6 +112,9 @@ func shapeFamilies() []shapeFamily {
 		"escaped-keys-at-every-level":          func(n int) string { return rep(`{"`+"\\"+`tk":`, n) + "1" + rep("}", n) },
 		"escaped-strings-wide":                 func(n int) string { return bigArray(n, `"a`+"\\"+`nb"`) },
 		"long-escaped-string":                  func(n int) string { return `"` + rep(`\n`, n*4) + `"` },
+		"escaped-quote-then-unicode-escapes":   func(n int) string { return `"` + "\\" + `"` + rep(U("0041"), n*2) + `"` },
+		"escaped-quotes-and-escapes":           func(n int) string { return `"` + rep("\\"+`"`+"\\"+`n`+U("00e9"), n) + `"` },
+		"plain-then-late-escapes":              func(n int) string { return `"` + rep("x", n*4) + rep(U("d83d")+U("de00"), n) + `"` },
 		"deep-arrays":                          func(n int) string { return rep("[", n) + rep("]", n) },
 		"deep-objects":                         func(n int) string { return rep(`{"a":`, n) + "1" + rep("}", n) },
 		"deep-with-siblings":                   func(n int) string { return rep("[[],", n) + "1" + rep("]", n) },
@@ -128,6 +131,14 @@ func shapeFamilies() []shapeFamily {
 	for _, k := range names {
 		fams = append(fams, one("ReadValue/"+k, docs[k], readValue))
 	}
+	for _, k := range []string{"escaped-quote-then-unicode-escapes", "escaped-quotes-and-escapes", "plain-then-late-escapes", "long-escaped-string"} {
+		d := docs[k]
+		fams = append(fams,
+			one("ReadStringBytes/"+k, d, func(b []byte) { rjson.ReadStringBytes(b, nil) }),
+			one("ReadString/"+k, d, func(b []byte) { rjson.ReadString(b, nil) }),
+			one("UnescapeStringContent/"+k, d, func(b []byte) { rjson.UnescapeStringContent(b[1:len(b)-1], nil) }),
+		)
+	}
 	for _, k := range []string{"deep-arrays", "deep-objects", "deep-with-siblings", "wide-numbers", "escapes-at-every-level", "big-object-then-small-objects", "long-escaped-string"} {
 		d := docs[k]
 		fams = append(fams,
@@ -138,10 +149,8 @@ func shapeFamilies() []shapeFamily {
 			}),
 		)
 	}
-	fams = append(fams, one("ReadStringBytes/long-escaped-string", docs["long-escaped-string"], func(b []byte) { rjson.ReadStringBytes(b, nil) }))
-	fams = append(fams, one("ReadString/long-escaped-string", docs["long-escaped-string"], func(b []byte) { rjson.ReadString(b, nil) }))
 	// reused reader: one large document, then n small ones
-	reused := func(name string, big func(n int) string, small string) shapeFamily {
+	reusedVia := func(name string, first string, big func(n int) string, small string) shapeFamily {
 		return shapeFamily{name, func(n int) measure {
 			var vr rjson.ValueReader
 			bd := []byte(big(n))
@@ -149,7 +158,14 @@ func shapeFamilies() []shapeFamily {
 			total := len(bd)
 			calls := 1
 			a := allocDuring(func() {
-				vr.ReadValue(bd)
+				switch first {
+				case "ReadArray":
+					vr.ReadArray(bd)
+				case "ReadObject":
+					vr.ReadObject(bd)
+				default:
+					vr.ReadValue(bd)
+				}
 				for i := 0; i < n; i++ {
 					vr.ReadValue(sd)
 				}
@@ -159,7 +175,13 @@ func shapeFamilies() []shapeFamily {
 			return measure{Family: name, N: n, Len: total, Calls: calls, Alloc: a}
 		}}
 	}
+	reused := func(name string, big func(n int) string, small string) shapeFamily {
+		return reusedVia(name, "ReadValue", big, small)
+	}
 	fams = append(fams,
+		reusedVia("reused-reader/ReadArray-big-objects-then-small-objects", "ReadArray", func(n int) string { return "[" + bigObject(n) + "," + bigObject(3) + "]" }, `{"a":1}`),
+		reusedVia("reused-reader/ReadObject-big-then-small-objects", "ReadObject", func(n int) string { return `{"x":` + bigObject(n) + `,"y":{}}` }, `{"a":{"b":1}}`),
+		reusedVia("reused-reader/ReadArray-big-array-then-small-arrays", "ReadArray", func(n int) string { return "[" + bigArray(n, "1") + ",[2]]" }, `[[1],2]`),
 		reused("reused-reader/big-object-then-small-docs", bigObject, `{"a":{"b":1}}`),
 		reused("reused-reader/big-object-in-array-then-small-docs", func(n int) string { return "[" + bigObject(n) + ",{}]" }, `[{"a":1},{"b":{}}]`),
 		reused("reused-reader/big-array-then-small-docs", func(n int) string { return bigArray(n, "[1]") }, `[[1],[2]]`),
@@ -309,25 +331,43 @@ func c20Shapes(r *eng.Run) {
 type costOp struct {
 	name string
 	doc  []byte
+	fn   string // "" = ReadValue, "ReadArray", "ReadObject"
+}
+
+func (o costOp) apply(vr *rjson.ValueReader) {
+	switch o.fn {
+	case "ReadArray":
+		vr.ReadArray(o.doc)
+	case "ReadObject":
+		vr.ReadObject(o.doc)
+	default:
+		vr.ReadValue(o.doc)
+	}
 }
 
 func costAlphabet(thorough bool) []costOp {
 	n := 2000
 	ops := []costOp{
-		{"small-scalar", []byte(`1.5`)},
-		{"small-obj", []byte(`{"a":{}}`)},
-		{"small-arrs", []byte(`[[],[]]`)},
-		{"small-nested", []byte(`[{"a":{"b":[1]}},{}]`)},
-		{"small-escape", []byte(`["` + "\\" + `n"]`)},
-		{"big-object", []byte(bigObject(n))},
-		{"big-object-in-array", []byte("[" + bigObject(n) + ",{}]")},
-		{"big-array", []byte(bigArray(n, "[1]"))},
-		{"deep", []byte(rep("[", n) + rep("]", n))},
-		{"long-escaped-string", []byte(`["` + rep(`\n`, 10000) + `"]`)},
-		{"error-eof", []byte(`[{"a":[1,`)},
+		{"small-scalar", []byte(`1.5`), ""},
+		{"small-obj", []byte(`{"a":{}}`), ""},
+		{"small-flat-obj", []byte(`{"a":1}`), ""},
+		{"small-arrs", []byte(`[[],[]]`), ""},
+		{"small-nested", []byte(`[{"a":{"b":[1]}},{}]`), ""},
+		{"small-escape", []byte(`["` + "\\" + `n"]`), ""},
+		{"ReadObject/small-obj", []byte(`{"a":{}}`), "ReadObject"},
+		{"ReadArray/small-arrs", []byte(`[[1],{}]`), "ReadArray"},
+		{"big-object", []byte(bigObject(n)), ""},
+		{"big-object-in-array", []byte("[" + bigObject(n) + ",{}]"), ""},
+		{"ReadArray/big-objects", []byte("[" + bigObject(n) + "," + bigObject(3) + "]"), "ReadArray"},
+		{"ReadObject/big-object", []byte(`{"x":` + bigObject(n) + `,"y":{}}`), "ReadObject"},
+		{"big-array", []byte(bigArray(n, "[1]")), ""},
+		{"ReadArray/big-array", []byte("[" + bigArray(n, "1") + ",[2]]"), "ReadArray"},
+		{"deep", []byte(rep("[", n) + rep("]", n)), ""},
+		{"long-escaped-string", []byte(`["` + rep(`\n`, 10000) + `"]`), ""},
+		{"error-eof", []byte(`[{"a":[1,`), ""},
 	}
 	if thorough {
-		ops = append(ops, costOp{"big-object-8000", []byte(bigObject(8000))}, costOp{"deep-objects", []byte(rep(`{"a":`, n) + "1" + rep("}", n))})
+		ops = append(ops, costOp{"big-object-8000", []byte(bigObject(8000)), ""}, costOp{"deep-objects", []byte(rep(`{"a":`, n) + "1" + rep("}", n)), ""})
 	}
 	return ops
 }
@@ -345,10 +385,10 @@ func c20CostGraph(r *eng.Run) {
 	replay := func(hist []int, last int) (key string, alloc uint64) {
 		vr := &rjson.ValueReader{}
 		for _, h := range hist {
-			vr.ReadValue(ops[h].doc)
+			ops[h].apply(vr)
 		}
 		if last >= 0 {
-			alloc = allocDuring(func() { vr.ReadValue(ops[last].doc) })
+			alloc = allocDuring(func() { ops[last].apply(vr) })
 		}
 		k, ok := readerKey(vr)
 		if !ok {
